@@ -1,0 +1,36 @@
+//go:build verif
+
+package compact
+
+import (
+	"diagonal.works/b6"
+	"diagonal.works/b6/encoding"
+)
+
+// VerifBucketBitsForCount exposes the number of bucket bits the index builder
+// requests for a feature block holding count features.
+func VerifBucketBitsForCount(count uint64) int { return bucketBitsForCount(count) }
+
+// VerifTagBits returns the number of tag bits the index builder uses for the
+// feature blocks of each feature type.
+func VerifTagBits() map[b6.FeatureType]int {
+	bits := make(map[b6.FeatureType]int, len(tagBits))
+	for t, b := range tagBits {
+		bits[t] = b
+	}
+	return bits
+}
+
+// VerifFeatureBlockLayout returns the layout of the map the index builder
+// creates for a block of count features of type t. It runs the builder's own
+// construction, which allocates memory proportional to count.
+func VerifFeatureBlockLayout(t b6.FeatureType, count uint64) encoding.Uint64MapLayout {
+	var nt NamespaceTable
+	nt.FillFromNamespaces([]b6.Namespace{b6.NamespaceOSMNode, b6.NamespaceOSMWay, b6.NamespaceOSMRelation})
+	builders := make(FeatureBlockBuilders)
+	addFeatureBlockBuilder(builders, t, b6.NamespaceOSMNode, count, &nt)
+	for _, b := range builders {
+		return b.Map.Layout
+	}
+	panic("no builder created")
+}
